@@ -833,6 +833,15 @@ def step (w : World) (line : String) : World × String :=
           | .close ns, _ => bump w ns (· - 1)
           | .dropReplica ns, _ => bump w ns (· - 1)
           | _, _ => w
+        -- capability history of the actor's store (for the C07 specification `swritable`): a
+        -- successful import is recorded, a successful drop forgets the document
+        let hist := (w.imports.lookup sid).getD []
+        let w := match a, r with
+          | .importNamespace ns kind _, .ok =>
+            { w with imports := (sid, (ns, kind) :: hist) :: w.imports.filter (·.1 != sid) }
+          | .dropReplica ns, .ok =>
+            { w with imports := (sid, hist.filter (·.1 != ns)) :: w.imports.filter (·.1 != sid) }
+          | _, _ => w
         (w.setActor sid st', showReply r)
       | none => (w, "no-store")
     | _, _ => (w, "bad-op")
